@@ -95,6 +95,8 @@ def signature(r):
 # ----------------------------------------------------------------------------- known findings
 def load_known():
     finds = []
+    if os.environ.get("VERIF_IGNORE_KNOWN"):   # maintenance aid: report listed findings like any violation (to refresh findings/*.json)
+        return finds
     if os.path.exists(KNOWN):
         for line in open(KNOWN):
             line = line.strip()
